@@ -72,6 +72,8 @@ CLS_ATTR_MODELS: dict = {}  # kind class -> callable(interp, scls, name)
 CTOR_MODELS: dict = {}  # kind class -> callable(interp, cls_value, *args, **kw)
 SUBSCRIPT_MODELS: dict = {}  # kind class -> callable(interp, cls_value, key)
 LOOP_INVARIANTS: dict = {}  # (qualname, ordinal) -> LoopSpec
+OPAQUE_CLASSES: set = set()  # classes whose instances / methods are bit-level data: calls give Opaque
+OPAQUE_FUNCS: dict = {}  # id(callable) -> tag: calls give Opaque (assumed not to raise; listed as assumption)
 
 
 def register_model(fn_obj, model):
@@ -448,6 +450,13 @@ class Interp:
     def call(self, fn, args, kwargs, node=None):
         from . import pybuiltins
 
+        if _hashable(fn) and id(fn) in OPAQUE_FUNCS:
+            self.ctx.events.append(("opaque-call", OPAQUE_FUNCS[id(fn)]))
+            return Opaque(OPAQUE_FUNCS[id(fn)] + "()", *args)
+        if isinstance(fn, type) and fn in OPAQUE_CLASSES:
+            return Opaque(fn.__name__ + "()", *args)
+        if isinstance(fn, types.FunctionType) and fn.__qualname__.split(".")[0] in {c.__name__ for c in OPAQUE_CLASSES} and fn.__module__ in {c.__module__ for c in OPAQUE_CLASSES}:
+            return Opaque(fn.__qualname__ + "()", *args)
         if isinstance(fn, BoundMethod):
             if isinstance(fn.fn, tuple):
                 return pybuiltins.call_pseudo(self, fn, args, kwargs, node)
@@ -1043,7 +1052,11 @@ class Interp:
         out = []
         for x in elts:
             if isinstance(x, ast.Starred):
-                out.extend(self.iterate(self.eval(x.value, frame), x))
+                v = self.eval(x.value, frame)
+                if isinstance(v, Opaque):
+                    out.append(Opaque("*" + v.tag, v))  # unknown number of opaque elements
+                else:
+                    out.extend(self.iterate(v, x))
             else:
                 out.append(self.eval(x, frame))
         return out
